@@ -8,6 +8,13 @@ def nontrivial(case, result):
 
 
 def run(ck):
+    # the actor-level half of an exchange (MultiDel / MultiSet on the read-repair source, cut-offs
+    # that move) is exercised through the real KeyspaceActor as well
+    import vcheck as V
+    okh, outh = V.build_harness(["hx-ec"])
+    if okh and V.build_model("core")[0] and not ck.replay:
+        ck.correspondence("hx-actor", "actor", "hx-ec", extra_args=["focus=c05"], name="actor-exchange",
+                          nontrivial=lambda c, r: "D:1:" in c or "S:1:" in c)
     run_orswot_check(
         ck, "Properties/C05.v", "c05", nontrivial,
         rule="cases = pairs of replicas (OrSWotSet<2>) built from one history of <= 3 (4) distinct-stamp operations over 3 keys, "
